@@ -290,7 +290,10 @@ def run_check(pid, tier):
     wall = time.time() - t_start
     trusted = ['Lean 4.33.0 kernel' + (' (+ leanchecker re-check)' if leanchecker else ''),
                'axioms per theorem: see coverage.theorems (allowed: propext, Classical.choice, Quot.sound; no native_decide)',
-               'hand-written Lean model tied to the code by this run\'s correspondence check only on the explored cases',
+               'hand-written Lean model of the public behaviour tied to the code by this run\'s correspondence check on the explored cases',
+               'translated functions (Gen/*.lean, regenerated from the working tree in this run): translator py2lean/np2lean + runtime libraries '
+               'Gen/PyRt.lean, Gen/NpRt.lean are trusted, validated by executing the generated code against the real functions (coverage.translator_validation); '
+               'refinement theorems (Refine/*.lean) are kernel-checked; oracle parameters (LAPACK, argsort, random choice, file reader) carry explicit contracts',
                'harness: generators, canonicalisation, float→exact-rational bridge, CPython/numpy/numba as executor']
     trusted += getattr(prop, 'TRUSTED', [])
     cov = {
